@@ -791,10 +791,11 @@ pub fn unhex(s: &str) -> Vec<u8> {
 /// Used by the coverage-guided fuzz targets (harness/fuzz): save the failing
 /// case as an ordinary replay file, print the VIOLATION line, then abort the
 /// fuzzing process so that libFuzzer keeps its own artifact as well.
-pub fn fuzz_violation(prop: &str, sig: &str, case: Value, detail: &str) -> ! {
+pub fn fuzz_violation(prop: &str, sig: &str, case: Value, detail: &str) {
     if known_findings(prop).iter().any(|f| f.sig == sig) {
-        // listed finding: never reported from here (the deterministic tier prints the KNOWN-FINDING line)
-        std::process::exit(0);
+        // a listed finding: tolerated in-target so that the campaign goes on
+        // (the deterministic tier prints its KNOWN-FINDING line)
+        return;
     }
     let v = Violation { sig: format!("fuzz-{}", sig), case, detail: detail.to_string(), count: 1 };
     let path = write_replay(prop, &v);
@@ -802,4 +803,14 @@ pub fn fuzz_violation(prop: &str, sig: &str, case: Value, detail: &str) -> ! {
     eprintln!("  [{}] {}", v.sig, v.detail);
     let _ = std::io::stdout().flush();
     std::process::abort();
+}
+
+/// libfuzzer-sys installs a panic hook that aborts the process; the oracles catch
+/// expected panics of the code under test (rejections at load, refused opcodes),
+/// so the fuzz targets replace that hook once.
+pub fn fuzz_init() {
+    static ONCE: std::sync::Once = std::sync::Once::new();
+    ONCE.call_once(|| {
+        std::panic::set_hook(Box::new(|_| {}));
+    });
 }
